@@ -13,7 +13,8 @@ EXPLANATION = (
     "(operator and both operands reconstructed from MIR), carries (limit, declared length) in that "
     "order, sits in the end-of-headers step and precedes every write of the body state, of the "
     "remaining-bytes counter and the enqueue of `100 Continue`; both line parsers report a too-long "
-    "line exactly under find == None and end == BUFFER_SIZE and start == 0, with BUFFER_SIZE = 1024 = "
+    "line exactly under find == None (of the whole window buffer[start..end]) and end == BUFFER_SIZE and start == 0, no path leaves "
+    "the end of the headers with a declared length without having asked the limit, with BUFFER_SIZE = 1024 = "
     "length of the buffer array; the server passes its configured limit to every new connection before "
     "it is stored; the error's Display prints both numbers and the server's 400 body is built from it. "
     "Decides these clauses; 'wherever it falls in the stream' over all alignments is not decided."
